@@ -84,6 +84,12 @@ pub trait Tok {
     fn res(&self, x: u8) -> Result<&u32, Token>;
     fn dup(&self, x: u8) -> CToken;
     fn dup_pair(&self, x: u8) -> (CToken, &u32);
+    // owned leaves two or three levels down
+    fn opt_res(&self, x: u8) -> Option<Result<&u32, Token>>;
+    fn poll_res(&self, x: u8) -> core::task::Poll<Result<&u32, Token>>;
+    fn poll_opt_res(&self, x: u8) -> core::task::Poll<Option<Result<&u32, Token>>>;
+    fn vec_res(&self, x: u8) -> Vec<Result<&u32, Token>>;
+    fn opt_pair(&self, x: u8) -> (Option<Result<&u32, Token>>, &u32);
 }
 
 #[derive(Clone, Copy, Debug, PartialEq, Eq, Hash, Serialize, Deserialize)]
@@ -94,6 +100,16 @@ pub enum Shape {
     Pair,
     Triple,
     ResErr,
+    /// `Option<Result<&T, Token>>` configured as `Some(Err(t))`
+    OptResErr,
+    /// `Poll<Result<&T, Token>>` configured as `Ready(Err(t))`
+    PollResErr,
+    /// `Poll<Option<Result<&T, Token>>>` configured as `Ready(Some(Err(t)))`
+    PollOptResErr,
+    /// `Vec<Result<&T, Token>>` configured as `[Err(a), Ok(5), Err(b)]`
+    VecRes,
+    /// `(Option<Result<&T, Token>>, &T)` configured as `(Some(Err(t)), 80)`
+    OptPair,
     /// Clone value configured through the single-use path (`some_call(..).returns(v)` / `.once()`)
     DupSingle,
     /// Clone value, `returns(v).n_times(n)`
@@ -196,6 +212,31 @@ fn configure(dc: &mut DynClause, reg: &Arc<Reg>, idx: u8, item: &Item) -> Config
             let ids = vec![t.id];
             single!(TokMock::res, Err::<u32, Token>(t), ids)
         }
+        Shape::OptResErr => {
+            let t = Token::new(reg);
+            let ids = vec![t.id];
+            single!(TokMock::opt_res, Some(Err::<u32, Token>(t)), ids)
+        }
+        Shape::PollResErr => {
+            let t = Token::new(reg);
+            let ids = vec![t.id];
+            single!(TokMock::poll_res, core::task::Poll::Ready(Err::<u32, Token>(t)), ids)
+        }
+        Shape::PollOptResErr => {
+            let t = Token::new(reg);
+            let ids = vec![t.id];
+            single!(TokMock::poll_opt_res, core::task::Poll::Ready(Some(Err::<u32, Token>(t))), ids)
+        }
+        Shape::VecRes => {
+            let (a, b) = (Token::new(reg), Token::new(reg));
+            let ids = vec![a.id, b.id];
+            single!(TokMock::vec_res, vec![Err::<u32, Token>(a), Ok(5u32), Err(b)], ids)
+        }
+        Shape::OptPair => {
+            let t = Token::new(reg);
+            let ids = vec![t.id];
+            single!(TokMock::opt_pair, (Some(Err::<u32, Token>(t)), 80u32), ids)
+        }
         Shape::DupSingle => {
             let t = CToken::new(reg);
             let ids = vec![t.id];
@@ -248,6 +289,31 @@ fn request(u: &Unimock, idx: u8, shape: Shape) -> Result<Delivered, String> {
             Err(t) => Delivered::Tokens(vec![t]),
             Ok(_) => Delivered::Tokens(vec![]),
         },
+        Shape::OptResErr => match u.opt_res(idx) {
+            Some(Err(t)) => Delivered::Tokens(vec![t]),
+            _ => Delivered::Tokens(vec![]),
+        },
+        Shape::PollResErr => match u.poll_res(idx) {
+            core::task::Poll::Ready(Err(t)) => Delivered::Tokens(vec![t]),
+            _ => Delivered::Tokens(vec![]),
+        },
+        Shape::PollOptResErr => match u.poll_opt_res(idx) {
+            core::task::Poll::Ready(Some(Err(t))) => Delivered::Tokens(vec![t]),
+            _ => Delivered::Tokens(vec![]),
+        },
+        Shape::VecRes => {
+            let v = u.vec_res(idx);
+            assert!(v.len() == 3 && matches!(v[1], Ok(r) if *r == 5), "borrowed leaf of the vec");
+            Delivered::Tokens(v.into_iter().filter_map(|r| r.err()).collect())
+        }
+        Shape::OptPair => {
+            let (o, r) = u.opt_pair(idx);
+            assert_eq!(*r, 80, "borrowed leaf of the pair holding an option");
+            match o {
+                Some(Err(t)) => Delivered::Tokens(vec![t]),
+                _ => Delivered::Tokens(vec![]),
+            }
+        }
         Shape::DupSingle | Shape::DupNTimes(_) | Shape::DupEach => Delivered::CTokens(vec![u.dup(idx)]),
         Shape::DupPairEach => {
             let (t, r) = u.dup_pair(idx);
@@ -420,10 +486,12 @@ fn check_inner(case: &LinearCase, insts: &mut Vec<Unimock>) -> Result<CaseInfo, 
             return Err(format!("after teardown value {id} was dropped {d} times (expected exactly once)"));
         }
     }
-    let mixed = case.items.iter().any(|i| matches!(i.shape, Shape::Pair | Shape::Triple | Shape::ResErr | Shape::DupPairEach));
+    let mixed = case.items.iter().any(|i| matches!(i.shape, Shape::Pair | Shape::Triple | Shape::ResErr | Shape::DupPairEach | Shape::OptResErr | Shape::PollResErr | Shape::PollOptResErr | Shape::VecRes | Shape::OptPair));
+    let nested = case.items.iter().any(|i| matches!(i.shape, Shape::OptResErr | Shape::PollResErr | Shape::PollOptResErr | Shape::VecRes | Shape::OptPair));
     Ok(CaseInfo::new(multi_requests || mixed)
         .class_if(multi_requests, "value-requested-more-than-once")
         .class_if(mixed, "owned-leaf-in-mixed-composite")
+        .class_if(nested, "owned-leaf-two-or-more-levels-down")
         .class_if(case.items.iter().any(|i| i.requests == 0), "never-requested-value")
         .class_if(case.items.iter().any(|i| i.ordered), "next_call-entry")
         .class_if(case.clones > 0, "requests-through-clones"))
@@ -437,6 +505,11 @@ fn shape_strategy() -> impl Strategy<Value = Shape> {
         Just(Shape::Pair),
         Just(Shape::Triple),
         Just(Shape::ResErr),
+        Just(Shape::OptResErr),
+        Just(Shape::PollResErr),
+        Just(Shape::PollOptResErr),
+        Just(Shape::VecRes),
+        Just(Shape::OptPair),
         Just(Shape::DupSingle),
         (0..4u8).prop_map(Shape::DupNTimes),
         Just(Shape::DupEach),
@@ -465,6 +538,11 @@ pub fn case_strategy() -> impl Strategy<Value = LinearCase> {
             Shape::ResErr => 5,
             Shape::DupSingle | Shape::DupNTimes(_) | Shape::DupEach => 6,
             Shape::DupPairEach => 7,
+            Shape::OptResErr => 8,
+            Shape::PollResErr => 9,
+            Shape::PollOptResErr => 10,
+            Shape::VecRes => 11,
+            Shape::OptPair => 12,
         };
         let mut mode: std::collections::BTreeMap<u8, bool> = Default::default();
         for it in items.iter_mut() {
@@ -496,6 +574,11 @@ pub fn grid() -> Vec<LinearCase> {
         Shape::Pair,
         Shape::Triple,
         Shape::ResErr,
+        Shape::OptResErr,
+        Shape::PollResErr,
+        Shape::PollOptResErr,
+        Shape::VecRes,
+        Shape::OptPair,
         Shape::DupSingle,
         Shape::DupNTimes(0),
         Shape::DupNTimes(2),
@@ -523,7 +606,7 @@ pub fn grid() -> Vec<LinearCase> {
     v
 }
 
-pub const RULE: &str = "histories = 1-6 configured return values (non-Clone drop-counting tokens alone, inside Option / Poll, as owned leaves of mixed tuples (Token,&T) / (&T,Token,Token) and as the owned Err of Result<&T,Token>; Clone tokens through the single-use path, n_times(n), each_call, and as leaf of a mixed tuple), some_call or next_call entry, unquantified or once(), each requested 0-4 times in a generated interleaving through the original and clones, delivered values dropped early or kept past teardown; grid = every shape x entry x quantifier x 0..3 requests enumerated; racing = all schedules of 2-3 threads requesting one single-use value (see C10 engine). Non-trivial = some value requested more than once or an owned leaf inside a mixed composite; distinct = distinct case";
+pub const RULE: &str = "histories = 1-6 configured return values (non-Clone drop-counting tokens alone, inside Option / Poll, as owned leaves of mixed tuples (Token,&T) / (&T,Token,Token) and as the owned Err of Result<&T,Token>, and two or three levels down in Option<Result<&T,Token>>, Poll<Result<..>>, Poll<Option<Result<..>>>, Vec<Result<&T,Token>>, (Option<Result<&T,Token>>,&T); Clone tokens through the single-use path, n_times(n), each_call, and as leaf of a mixed tuple), some_call or next_call entry, unquantified or once(), each requested 0-4 times in a generated interleaving through the original and clones, delivered values dropped early or kept past teardown; grid = every shape x entry x quantifier x 0..3 requests enumerated; racing = all schedules of 2-3 threads requesting one single-use value (see C10 engine). Non-trivial = some value requested more than once or an owned leaf inside a mixed composite; distinct = distinct case";
 
 pub fn run(ctx: &Ctx) -> Verdict {
     let mut v = Verdict::new("exploration", RULE);
